@@ -12,7 +12,7 @@ LIBOGG = "/usr/lib/x86_64-linux-gnu/libogg.a"
 GUARD = "XIPH_VORBIS_VERIF"
 
 UBSAN_GATE = ("bounds,null,integer-divide-by-zero,pointer-overflow,vla-bound,"
-              "unreachable,return,nonnull-attribute,returns-nonnull-attribute")
+              "unreachable,return")
 
 FLAVOURS = {
     # name: (cc, cflags, ldflags)
